@@ -132,6 +132,20 @@ def histories(rep: Report, t: str, rng: random.Random):
         if case["nl"] and case["pos"] in ("only", "in_def", "in_loop", "tail_of_if", "fragment"):
             src, opts = shapes.render_case(case)
             items.append((f"shape:{case['c']}:{case['pos']}:{case['opt']}", src, opts))
+    # texts on which ONE rule has a lot to do: every rewrite overlaps the previous one, so a rule that gives up after one
+    # iteration (or a loop that forgets what it has seen) needs one application of format_code per step
+    for n in (5, 7, 9):
+        funcs = "".join(f"def stepNumber{i}(v):\n    return v + {i}" + "".join(f" + stepNumber{j}(v)" for j in range(i)) + "\n\n\n" for i in range(n))
+        items.append((f"stress:camel-chain:{n}", funcs + f"print(stepNumber{n - 1}(1))\n", {}))
+        items.append((f"stress:camel-chain-safe:{n}", funcs + f"print(stepNumber{n - 1}(1))\n", {"safe": True}))
+        dead = "def chain(v):\n" + "    a0 = v\n" + "".join(f"    a{i} = a{i - 1} + 1\n" for i in range(1, n + 2)) + "    return v\n\n\nprint(chain(1))\n"
+        items.append((f"stress:dead-locals:{n}", dead, {}))
+        items.append((f"stress:dead-locals-safe:{n}", dead, {"safe": True}))
+        nested = "def pick(v):\n" + "".join("    " * (i + 1) + f"if v > {i}:\n" for i in range(n)) + "    " * (n + 1) + "return 1\n" + \
+                 "".join("    " * (n - i) + "else:\n" + "    " * (n - i + 1) + f"return {i + 2}\n" for i in range(n)) + "\n\nprint(pick(3))\n"
+        items.append((f"stress:nested-else:{n}", nested, {}))
+        calls = "import os\nx = " + "list(" * n + "sorted(" + "set(" + "os.listdir('.')" + ")" * (n + 2) + "\nprint(len(x) >= 0)\n"
+        items.append((f"stress:nested-casts:{n}", calls, {}))
     std = list(corpus.stdlib_files(max_lines=150 if t == "quick" else 400))
     for origin, text in rng.sample(std, min(12 if t == "quick" else 150, len(std))):
         items.append((origin, text, {"safe": True}))
